@@ -1,15 +1,45 @@
 (* PropsC17.v — C17: parse.Value accepts every JSON value and reads it back faithfully.
    Statements only; proofs are in ProofsParse.v.
 
-   PARTIAL: the theorems below cover the parser options (each disabled syntax is taken
-   literally, the rejected flag combination) and the faithful reading of single-quoted
-   strings of ANY content at any position. The round trip for all JSON documents (numbers,
-   double-quoted strings with escapes, nesting, layout) is not proved in Coq: it is decided by
-   the correspondence run, where the model parser and the implementation are compared on
-   every short text over the syntax alphabet and on random JSON documents, and the model's
-   result is compared with the data the document was printed from. F21 (JSON escapes that
-   strconv.Unquote does not know) is the known counterexample to the full statement. *)
-From Ucfg Require Import Base ParseInt Consts Field Tree F64 ParseValue ProofsParse.
+   PARTIAL.  Proved: the round trip for EVERY document of a fragment, at any nesting depth and
+   width - null, true, false, strings over the printable ASCII characters other than the quote
+   and the backslash, arrays, objects with such keys, printed compactly - under every
+   configuration with arrays, objects and double quotes enabled (the data read back is what
+   parse.Value returns: an empty array or object reads as nil, objects are sorted, a repeated
+   key keeps its last value); each disabled syntax is taken literally; the rejected flag
+   combination; single-quoted strings of ANY content.  NOT proved: numbers, escape sequences,
+   non-ASCII text and free white-space layout; they are decided by the correspondence run,
+   where the model parser and the implementation are compared on every short text over the
+   syntax alphabet and on random JSON documents, and the model's result is compared with the
+   data the document was printed from.  F21 (JSON escapes that strconv.Unquote does not know)
+   is the known counterexample to the full statement. *)
+From Ucfg Require Import Base ParseInt Consts Field Tree F64 ParseValue ProofsParse ProofsJson.
+
+(* parse.Value(print v) = data v, for every document v of the fragment *)
+Theorem c17_json_fragment_roundtrip_partial : forall cfg v,
+  c_array cfg = true -> c_dq cfg = true -> c_object cfg = true ->
+  wf v = true ->
+  parse_value_with_config cfg (print v) = POk (data v).
+Proof. exact json_fragment_roundtrip. Qed.
+Print Assumptions c17_json_fragment_roundtrip_partial.
+
+(* ... and as a member of any larger text: followed by nothing or by a stop character *)
+Theorem c17_json_fragment_value_anywhere_partial : forall cfg,
+  c_array cfg = true -> c_object cfg = true -> c_dq cfg = true ->
+  forall v, wf v = true -> forall f, (jsize v < f)%nat ->
+  forall stop rest, stop_ok stop -> ok_rest stop rest ->
+  parse_value cfg f (print v +++ rest) stop = POk (data v, rest).
+Proof. exact parse_print. Qed.
+Print Assumptions c17_json_fragment_value_anywhere_partial.
+
+Theorem c17_json_fragment_example :
+  let v := JObj [("b", JArr [JNull; JBool true; JArr []; JObj [("x y", JStr "a{b}[c],:'d")]]); ("a", JStr "")] in
+  wf v = true /\
+  print v = "{""b"":[null,true,[],{""x y"":""a{b}[c],:'d""}],""a"":""""}" /\
+  parse_value_with_config DefaultConfig (print v) = POk (data v) /\
+  data v = PObj [("a", PStr ""); ("b", PArr [PNil; PBool true; PNil; PObj [("x y", PStr "a{b}[c],:'d")]])].
+Proof. exact json_fragment_example. Qed.
+Print Assumptions c17_json_fragment_example.
 
 Theorem c17_array_disabled_is_literal_partial : forall cfg f r stop,
   c_array cfg = false ->
